@@ -4,9 +4,23 @@
    fact ever assumed about them is c*c + s*s == 1, and only where stated. *)
 From Coq Require Import QArith ZArith Bool List.
 From CR Require Import Base.QMod Model.Interval Model.Transform Model.Shapes Model.Scene
-  Proofs.Transform Proofs.Shapes Proofs.Scene.
+  Proofs.Transform Proofs.Shapes Proofs.Scene Gen.Src_transform Proofs.SrcTransform.
 Import ListNotations.
 Open Scope Q_scope.
+
+(* the model of transform.py the theorems below are about IS the Gallina text generated on every run from
+   commonroad/geometry/transform.py by harness/vlib/py2coq.py (Gen/Src_transform.v), with c = math.cos(a) and
+   s = math.sin(a) of the SAME angle the function was given (cos_ / sin_ are uninterpreted functions) *)
+Theorem C05_model_is_source : forall (cos_ sin_ : Q -> Q) vs t a,
+  src_translation_rotation_matrix cos_ sin_ t a = translation_rotation_matrix t a (cos_ a) (sin_ a) /\
+  src_rotation_translation_matrix cos_ sin_ t a = rotation_translation_matrix t a (cos_ a) (sin_ a) /\
+  src_translate_rotate cos_ sin_ vs t a = translate_rotate_pts t a (cos_ a) (sin_ a) vs /\
+  src_rotate_translate cos_ sin_ vs t a = rotate_translate_pts t a (cos_ a) (sin_ a) vs.
+Proof.
+  exact (fun cos_ sin_ vs t a => conj (src_translation_rotation_matrix_eq cos_ sin_ t a)
+    (conj (src_rotation_translation_matrix_eq cos_ sin_ t a)
+    (conj (src_translate_rotate_eq cos_ sin_ vs t a) (src_rotate_translate_eq cos_ sin_ vs t a)))).
+Qed.
 
 (* the 3x3 matrix product the code builds is the map p |-> R(c,s)(p + t), for every angle *)
 Theorem C05_closed_form : forall t a c s p,
@@ -200,6 +214,7 @@ Proof.
   eexists. vm_compute. reflexivity.
 Qed.
 
+Print Assumptions C05_model_is_source.
 Print Assumptions C05_closed_form.
 Print Assumptions C05_rotate_translate_closed_form.
 Print Assumptions C05_dist2_scaled.
